@@ -25,7 +25,7 @@ import (
 // min(start+delay, context end) in fake time.
 
 type c36Op struct {
-	T string `json:"t"`           // c | d0 | d1
+	T string `json:"t"`           // c | c2 | d0 | d1
 	K string `json:"k"`           // signal release reset check sleep cancel delay
 	A int    `json:"a,omitempty"` // sleep: ms; cancel: delayer index; delay: context timeout ms (0 none, -1 already cancelled)
 }
@@ -54,6 +54,7 @@ func c36Gen(r *core.Rand, tier string) any {
 	sc.TickProb = []float64{0.05, 0.2, 0.5}[r.Intn(3)]
 	sc.Sticky = []float64{0, 0.5}[r.Intn(2)]
 	nd := r.Range(1, 2)
+	two := r.Bool(0.6) // two controller tasks
 	n := r.Range(10, 60)
 	sl := []int{1, 5, 10, 29, 30, 31, 50, 99, 100, 101, 150, 400, 401, 1000, 2000, 2001}
 	for i := 0; i < n; i++ {
@@ -77,7 +78,10 @@ func c36Gen(r *core.Rand, tier string) any {
 			continue
 		}
 		op := c36Op{T: "c"}
-		switch r.Weighted([]int{45, 12, 4, 14, 15, 10}) {
+		if two && r.Bool(0.4) {
+			op.T = "c2"
+		}
+		switch r.Weighted([]int{45, 12, 8, 12, 13, 10}) {
 		case 0:
 			op.K = "signal"
 		case 1:
@@ -173,68 +177,76 @@ func c36Run(c *core.Ctx, raw json.RawMessage) {
 		per[op.T] = append(per[op.T], op)
 	}
 	var tasks []*sched.Task
-	tasks = append(tasks, s.Go("c", func(t *sched.Task) {
-		for _, op := range per["c"] {
-			if s.Freed() || s.Failed() {
-				return
+	controller := func(cname string) *sched.Task {
+		return s.Go(cname, func(t *sched.Task) {
+			for _, op := range per[cname] {
+				if s.Freed() || s.Failed() {
+					return
+				}
+				switch op.K {
+				case "signal":
+					t.Yield("h.signal")
+					th.Signal()
+					mu.Lock()
+					if level < maxLevel {
+						level++
+					} else {
+						c.Probe("signal_at_max")
+					}
+					touch()
+					s.Logf("  %s signal -> %d", cname, level)
+					verify(cname, "Signal")
+					mu.Unlock()
+				case "release":
+					t.Yield("h.release")
+					th.Release()
+					mu.Lock()
+					level -= rate
+					if level < 0 {
+						level = 0
+						c.Probe("release_clamped_at_zero")
+					}
+					touch()
+					s.Logf("  %s release -> %d", cname, level)
+					verify(cname, "Release")
+					mu.Unlock()
+				case "reset":
+					t.Yield("h.reset")
+					th.Reset() // parks once more at its own yield point before taking the lock
+					mu.Lock()
+					level, armed = 0, false
+					s.Logf("  %s reset", cname)
+					verify(cname, "Reset")
+					mu.Unlock()
+				case "check":
+					t.Yield("h.check")
+					mu.Lock()
+					s.Logf("  %s check level=%d", cname, level)
+					verify(cname, "waiting")
+					mu.Unlock()
+				case "sleep":
+					t.Yield("h.sleep")
+					time.Sleep(time.Duration(op.A) * time.Millisecond)
+				case "cancel":
+					t.Yield("h.cancel")
+					mu.Lock()
+					ds := curD[op.A]
+					if ds != nil && !ds.canceled {
+						ds.canceled, ds.cancelAt = true, time.Now()
+						ds.cancel()
+						s.Logf("  %s cancel d%d", cname, op.A)
+					}
+					mu.Unlock()
+				}
 			}
-			switch op.K {
-			case "signal":
-				t.Yield("h.signal")
-				th.Signal()
-				mu.Lock()
-				if level < maxLevel {
-					level++
-				} else {
-					c.Probe("signal_at_max")
-				}
-				touch()
-				s.Logf("  c signal -> %d", level)
-				verify("controller", "Signal")
-				mu.Unlock()
-			case "release":
-				t.Yield("h.release")
-				th.Release()
-				mu.Lock()
-				level -= rate
-				if level < 0 {
-					level = 0
-					c.Probe("release_clamped_at_zero")
-				}
-				touch()
-				s.Logf("  c release -> %d", level)
-				verify("controller", "Release")
-				mu.Unlock()
-			case "reset":
-				t.Yield("h.reset")
-				th.Reset() // parks once more at its own yield point before taking the lock
-				mu.Lock()
-				level, armed = 0, false
-				s.Logf("  c reset")
-				verify("controller", "Reset")
-				mu.Unlock()
-			case "check":
-				t.Yield("h.check")
-				mu.Lock()
-				s.Logf("  c check level=%d", level)
-				verify("controller", "waiting")
-				mu.Unlock()
-			case "sleep":
-				t.Yield("h.sleep")
-				time.Sleep(time.Duration(op.A) * time.Millisecond)
-			case "cancel":
-				t.Yield("h.cancel")
-				mu.Lock()
-				ds := curD[op.A]
-				if ds != nil && !ds.canceled {
-					ds.canceled, ds.cancelAt = true, time.Now()
-					ds.cancel()
-					s.Logf("  c cancel d%d", op.A)
-				}
-				mu.Unlock()
-			}
-		}
-	}))
+		})
+	}
+	tasks = append(tasks, controller("c"))
+	if len(per["c2"]) > 0 {
+		// a second controller: Signal/Release/Reset of different goroutines queue
+		// behind each other at the yield points before the throttler's lock
+		tasks = append(tasks, controller("c2"))
+	}
 	for di := 0; di < 2; di++ {
 		name := fmt.Sprintf("d%d", di)
 		ops := per[name]
